@@ -1458,3 +1458,118 @@ func c18BodyThroughCancelingReader(c *Ctx) {
 	c.Check(n >= 1 && bad == "", R, "origin:request body read through the cancelingReader", c.P.Pos(f.Pos()),
 		"a body source that fails mid-stream must cancel the request stream (H3_REQUEST_CANCELLED); read directly, the failure ends the stream with a clean FIN and the server sees a truncated body as complete"+map[bool]string{true: "", false: " — body is used: " + bad}[bad == ""])
 }
+
+// ---- C17.9: every mutex acquired is released on every path ----
+
+// lockHandOffs: functions that return with a mutex still held on purpose, with the reason.
+var lockHandOffs = map[string]string{
+	"(*quic.ReceiveStream).readImpl/mutex": "called by Read with the mutex held (checked: every call site holds it); releases it only around the wait for data and re-acquires it before returning to Read, which unlocks",
+}
+
+func c17LockPairing(c *Ctx) {
+	const R = "C17.9"
+	inScope := func(pk string) bool {
+		return pk == modPath || pk == modPath+"/http3" || strings.HasPrefix(pk, modPath+"/internal/flowcontrol") || strings.HasPrefix(pk, modPath+"/internal/ackhandler") || strings.HasPrefix(pk, modPath+"/internal/handshake") || strings.HasPrefix(pk, modPath+"/internal/utils")
+	}
+	nLock, nFn := 0, 0
+	for _, f := range c.P.ScopeFuncs() {
+		if !inScope(funcPkgPath(f)) {
+			continue
+		}
+		// locks by mutex field
+		by := map[*types.Var][]ssa.Instruction{}
+		eachInstr(f, func(in ssa.Instruction) {
+			if _, isDefer := in.(*ssa.Defer); isDefer {
+				return
+			}
+			if fld, op := mutexOp(in); fld != nil && op == "lock" {
+				by[fld] = append(by[fld], in)
+			}
+		})
+		if len(by) == 0 {
+			continue
+		}
+		nFn++
+		for fld, locks := range by {
+			fld := fld
+			nLock += len(locks)
+			isUnlock := func(in ssa.Instruction) bool {
+				g, op := mutexOp(in)
+				return g == fld && op == "unlock"
+			}
+			key := fmt.Sprintf("pair:%s releases %s on every path", funcName(f), fld.Name())
+			if why, ok := lockHandOffs[funcName(f)+"/"+fld.Name()]; ok {
+				// the hand-off is only sound if every caller holds the mutex at the call and releases it afterwards
+				held := true
+				if obj := funcObj(f); obj != nil {
+					sites := c.P.CallSites(obj)
+					if len(sites) == 0 {
+						held = false
+					}
+					for _, cs := range sites {
+						li := locksIn(cs.Fn, lockSet{})
+						if !li.At[cs.Instr][fld] {
+							held = false
+						}
+						cs := cs
+						if (&Cut{Fn: cs.Fn, Start: func(i ssa.Instruction) bool { return i == cs.Instr }, Target: isReturn, Barrier: isUnlock, DeferBarrier: true, NoInline: true}).Run() != nil && !deferredUnlockBefore(cs.Fn, cs.Instr, fld) {
+							held = false
+						}
+					}
+				}
+				c.Check(held, R, key, c.P.Pos(f.Pos()), "exception (lock hand-off): "+why)
+				continue
+			}
+			// per acquisition: released on every path after it, or covered by a deferred Unlock registered earlier
+			var w *Witness
+			for _, l := range locks {
+				l := l
+				if deferredUnlockBefore(f, l, fld) {
+					continue
+				}
+				if wl := (&Cut{Fn: f, Start: func(i ssa.Instruction) bool { return i == l }, Target: isReturn, Barrier: isUnlock, DeferBarrier: true, NoInline: true}).Run(); wl != nil {
+					w = wl
+				}
+			}
+			detail := "a mutex that is still held when the function returns blocks every later caller: API calls, the run loop and teardown hang"
+			if w != nil {
+				detail += " — " + w.String(c.P)
+			}
+			c.FuncsSet[funcName(f)] = true
+			c.Check(w == nil, R, key, c.P.Pos(f.Pos()), detail)
+		}
+	}
+	c.Floor(R, "mutex acquisitions checked", nLock, 150)
+	c.Floor(R, "functions acquiring a mutex", nFn, 100)
+}
+
+// deferredUnlockBefore: a `defer m.Unlock()` of the same mutex is registered on every path before instruction at
+// (it dominates it).
+func deferredUnlockBefore(f *ssa.Function, at ssa.Instruction, fld *types.Var) bool {
+	found := false
+	eachInstr(f, func(in ssa.Instruction) {
+		d, ok := in.(*ssa.Defer)
+		if !ok {
+			return
+		}
+		g, op := mutexOp(d)
+		if g != fld || op != "unlock" {
+			return
+		}
+		if d.Block() == at.Block() {
+			for _, x := range d.Block().Instrs {
+				if x == ssa.Instruction(d) {
+					found = true
+					return
+				}
+				if x == at {
+					return
+				}
+			}
+		}
+		if dominatedByBlock(at.Block(), d.Block()) && d.Block() != at.Block() {
+			found = true
+		}
+	})
+	return found
+}
